@@ -70,6 +70,23 @@ def _sim_build(cfg="asan"):
     return dict(name="rtrsim", config=cfg, harness=SIM_SRCS, wraps=WRAP_SIM)
 
 
+def _sim_tcp_build():
+    """the same engine with the library's real TCP transport between the client and the simulator: recv / send /
+    setsockopt / close of tcp_transport.c are redirected at link time (harness/common/sim_tr.c, SIM_TCP_WRAPS)"""
+    return dict(name="rtrsimtcp", config="asan", harness=SIM_SRCS, wraps=WRAP_SIM + ["recv", "send", "setsockopt", "close"],
+                cflags=["-DSIM_TCP_WRAPS"])
+
+
+def _sim_tcp_run(mode, quick, thorough):
+    return dict(name=mode + "-over-tcp-transport", bin="rtrsimtcp", config="asan", mode=mode, cases=T(quick, thorough), timeout=1500,
+                chunks=32, args=["tcp=1"])
+
+
+TCP_RULE = (" <mode>-over-tcp-transport: the same scenarios with tr_tcp_init() (new_socket hook) as the client's transport - "
+            "tcp_transport.c runs unchanged, its recv / send / setsockopt(SO_RCVTIMEO, SO_SNDTIMEO) / close calls reach the simulated "
+            "cache and the virtual clock through link-time wrappers; a blocking recv() without a timeout waits ten virtual years.")
+
+
 def _sim_run(mode, quick, thorough, cfg="asan", name=None, timeout=1500):
     return dict(name=name or (mode if cfg == "asan" else mode + "-" + cfg), bin="rtrsim", config=cfg, mode=mode,
                 cases=T(quick, thorough), timeout=timeout, chunks=64)
@@ -161,9 +178,10 @@ def c07():
 def c08():
     return dict(
         id="C08", level="fault_enumeration", engine="rtrsim",
-        builds=[_sim_build()],
+        builds=[_sim_build(), _sim_tcp_build()],
         runs=[_sim_run("faults", 6144, 122880), _sim_run("conv", 2500, 60000), _sim_run("expiry", 980, 19600),
-              _sim_run("version", 1200, 24000), _sim_run("defect", 1440, 21600)],
+              _sim_run("version", 1200, 24000), _sim_run("defect", 1440, 21600),
+              _sim_tcp_run("conv", 600, 12000), _sim_tcp_run("faults", 1024, 20480), _sim_tcp_run("expiry", 240, 4800)],
         floors={"c08/convergence_checks": T(10000, 200000), "faults/single/kind-1": T(500, 5000),
                 "faults/single/kind-4": T(500, 5000)},
         rule=(SIM_RULE_COMMON + "Bounded-liveness oracle: after the last disturbance (fired transport fault, defective or "
@@ -177,7 +195,7 @@ def c08():
               "behaviours after the faults: v1, v0 answering in v0, v0 answering Unsupported-Version, v0 that hangs up. One expiry "
               "scenario in four runs without other sources' records (tables empty after the purge); one conversation in nine gets "
               "an unsolicited prefix PDU whose header arrives 1-3 s before the first refresh deadline and whose rest arrives 3-7 s "
-              "later, then new data. Distinct by scenario trace hash."),
+              "later, then new data. Distinct by scenario trace hash." + TCP_RULE),
         assumptions=SIM_ASSUME + ["liveness is decided only in its bounded form; the horizon is stated in the rule"],
     )
 
@@ -207,11 +225,13 @@ def c14():
         id="C14", level="exploration", engine="rtrsim",
         builds=[_sim_build(), _sim_build("msan"),
                 dict(name="mgrmon", config="asan", harness=["mgrmon.c"] + SIM_SRCS[1:],
-                     wraps=WRAP_SIM + ["rtr_start", "rtr_stop", "rtr_change_socket_state"], lib_cflags=["--param", "asan-stack=0"])],
+                     wraps=WRAP_SIM + ["rtr_start", "rtr_stop", "rtr_change_socket_state"], lib_cflags=["--param", "asan-stack=0"]),
+                _sim_tcp_build()],
         runs=[_sim_run("defect", 7200, 108000), _sim_run("conv", 2500, 50000), _sim_run("version", 800, 16000),
               _sim_run("defect", 2160, 21600, cfg="msan"), _sim_run("conv", 600, 12000, cfg="msan"),
               _sim_run("faults", 1024, 10240, cfg="msan"),
-              dict(name="several-sockets", bin="mgrmon", config="asan", mode="fail", cases=T(1600, 32000), chunks=32, timeout=1800)],
+              dict(name="several-sockets", bin="mgrmon", config="asan", mode="fail", cases=T(1600, 32000), chunks=32, timeout=1800),
+              _sim_tcp_run("conv", 600, 12000), _sim_tcp_run("defect", 720, 10800)],
         floors={"wire/pdus_parsed": T(100000, 2000000), "c14/first_reports_judged": T(3000, 50000),
                 "c14/encapsulated_copies_checked": T(3000, 50000), "c15/socket_behaviour/sync-ok": T(500, 10000)},
         rule=(SIM_RULE_COMMON + "Wire monitor on the concatenation of all successful send_fp chunks per connection (the mock "
@@ -225,7 +245,7 @@ def c14():
               "clean shadow (__msan_test_shadow). several-sockets: the fail-over engine of C15 (2-8 sockets of one manager, each a "
               "real FSM thread over its own cache; exactly one thread runs between two transport calls and the seeded harness picks "
               "which; half of the sockets take a PDU in several writes, so another socket's PDUs go out between two pieces of one PDU) "
-              "with the same wire monitor on every connection. Distinct by scenario trace hash / judged exchange."),
+              "with the same wire monitor on every connection. Distinct by scenario trace hash / judged exchange." + TCP_RULE),
         assumptions=SIM_ASSUME + ["MSan: libcrypto is linked but never executed in these runs"],
     )
 
@@ -233,9 +253,10 @@ def c14():
 def c17():
     return dict(
         id="C17", level="exploration", engine="rtrsim",
-        builds=[_sim_build()],
+        builds=[_sim_build(), _sim_tcp_build()],
         runs=[dict(name="ivinit", bin="rtrsim", config="asan", mode="ivinit", cases=512, chunks=16),
-              _sim_run("intervals", 4096, 200000), _sim_run("conv", 1500, 30000)],
+              _sim_run("intervals", 4096, 200000), _sim_run("conv", 1500, 30000),
+              _sim_tcp_run("intervals", 1024, 20000), _sim_tcp_run("conv", 600, 12000)],
         floors={"c17/interval_checks": T(12000, 500000), "c17/rtr_init_calls": 512, "c17/wait_timeout_checks": T(10000, 200000),
                 "c17/polls_after_notify": T(100, 2000)},
         rule=("ivinit: rtr_init and rtr_mgr_init over the full cross product of 8 boundary values per interval (0, min-1.., max+1, "
@@ -246,7 +267,7 @@ def c17():
               "(baseline = the socket's values when the query went out). Poll timing on the wire in all conversations: while "
               "established the receive timeout handed to the transport must be max(0, t_ok + refresh - now); a delivered Serial "
               "Notify must be followed by the Serial Query in the same virtual second; otherwise the query goes out no later than "
-              "t_ok + refresh. Distinct by hash of the interval triple / scenario trace."),
+              "t_ok + refresh. Distinct by hash of the interval triple / scenario trace." + TCP_RULE),
         assumptions=SIM_ASSUME,
     )
 
@@ -628,10 +649,11 @@ def _c04_libfuzzer(bdir, res, tier, seed):
 def c04():
     return dict(
         id="C04", level="exploration", engine="rtrsim", post=_c04_libfuzzer, post_on_replay=False,
-        builds=[_sim_build()],
+        builds=[_sim_build(), _sim_tcp_build()],
         runs=[_sim_run("fuzz", 18000, 250000), _sim_run("defect", 3600, 54000), _sim_run("faults", 2048, 40960), _sim_run("conv", 1000, 20000),
               dict(name="intr", bin="rtrsim", config="asan", mode="intr", cases=T(1280, 25600), timeout=1500, chunks=32,
-                   remap_props={"C03:": "C04"})],
+                   remap_props={"C03:": "C04"}),
+              _sim_tcp_run("fuzz", 2000, 40000), _sim_tcp_run("faults", 512, 10240)],
         floors={"c04/streams_x_chunkings": T(70000, 950000), "c04/post_exchange_probes": T(17000, 240000), "sim/response/defective": T(10000, 200000),
                 "sim/response/truncated": T(2000, 40000), "libfuzzer/executions": T(15000, 1500000)},
         rule=(SIM_RULE_COMMON + "fuzz: a structure-aware generator builds a well-formed answer (Cache Response, up to 24 prefix / router-key "
@@ -655,7 +677,7 @@ def c04():
               "compares outcomes; a C04 monitor verdict traps like a sanitizer report. intr: a receive call returns TR_INTR after exactly "
               "k delivered bytes of the first response, for every k in 1..640 (all records announced, among them two whose IPv6 Prefix "
               "PDU carries the image of an IPv4 Prefix PDU 12 bytes in); wherever the client is torn out of the stream, nothing that was "
-              "not sent as a PDU may be applied: the per-exchange oracle of C03 decides, its verdicts count for C04 in this run."),
+              "not sent as a PDU may be applied: the per-exchange oracle of C03 decides, its verdicts count for C04 in this run." + TCP_RULE),
         assumptions=SIM_ASSUME + ["coverage-guided stage: monitors of sibling properties stay diagnostic there, as in the generator-driven fuzz mode"],
     )
 
